@@ -93,6 +93,45 @@ def _mutate(rnd, s):
     return s[::-1]
 
 
+class _Str(str):
+    """A plain str subclass (path-like wrappers, markupsafe-style strings ...)."""
+
+
+def _call_forms(ctx, text, positional_outcome, positional_result):
+    """The same text through the other legal ways of calling the parser: by keyword (the documented parameter
+    name), as an instance of a str subclass, as a (str, Enum) member whose value is the text.  Each must behave
+    exactly like the plain positional call."""
+    import enum
+    import inspect
+
+    from dep_logic.specifiers import InvalidSpecifier, parse_version_specifier
+
+    try:
+        pname = next(iter(inspect.signature(parse_version_specifier).parameters))
+    except Exception:  # noqa: BLE001
+        pname = "spec"
+    forms = [("keyword", lambda: parse_version_specifier(**{pname: text})), ("str-subclass", lambda: parse_version_specifier(_Str(text)))]
+    try:
+        member = enum.Enum("Choice", {"X": text}, type=str).X
+        forms.append(("str-enum-member", lambda: parse_version_specifier(member)))
+    except Exception:  # noqa: BLE001
+        pass
+    for how, call in forms:
+        bump("call-form")
+        try:
+            r2 = call()
+            out = "ok"
+        except InvalidSpecifier:
+            out, r2 = "invalid", None
+        except Exception as e:  # noqa: BLE001
+            out, r2 = f"raised {type(e).__name__}: {str(e)[:100]}", None
+        same = out == positional_outcome and (r2 is None or str(r2) == str(positional_result))
+        if not same:
+            violation(PROP, "parse_version_specifier", f"a {how} call behaves differently from the positional call with the same text",
+                      {"text": text[:200], "positional": positional_outcome, how: out,
+                       "result": None if r2 is None else str(r2)[:120], "group": "call-form/" + how})
+
+
 def _one(ctx, text):
     from dep_logic.specifiers import BaseSpecifier, InvalidSpecifier, from_specifierset, parse_version_specifier
 
@@ -124,6 +163,8 @@ def _one(ctx, text):
     except Exception as e:  # noqa: BLE001
         got = f"raised {type(e).__name__}: {str(e)[:120]}"
         r = None
+    if (ctx.evaluations % 6 == 0 or getattr(ctx, "force_forms", False)) and len(text) < 400:
+        _call_forms(ctx, text, got, r)
     if valid:
         bump("accept-valid")
         if got != "ok":
@@ -233,4 +274,5 @@ def replay(ctx, case):
             alts[case["bad_at"]] = "=>1.0"
         _one(ctx, "||".join(alts))
         return
+    ctx.force_forms = True
     _one(ctx, case["text"])
